@@ -161,47 +161,46 @@ spec fn is_bars(s: Seq<char>, b: Seq<BorderSegHoriz>) -> bool { s.len() == b.len
 //@auto C01 C05
 //@sub /let mut pos = 0;/ ==> let mut pos: usize = 0;
 //@sub /for \(col_no, &mut \(w, ref mut sublines\)\) in line_sets\.iter_mut\(\)\.enumerate\(\)/ ==> for col_no in 0..line_sets.len()
-fn collapse_bottom_slice<T: Clone>(line_sets: &mut Vec<(usize, Vec<RenderLine<T>>)>, next_border: &mut BorderHoriz<T>, column_padding: &mut Vec<Option<String>>) //@w[
-    requires
-        old(column_padding)@.len() == old(line_sets)@.len(),     // `vec![None; line_sets.len()]` just before
-        sep_pos(widths(old(line_sets)@), old(line_sets)@.len() - 1) < 0x4000_0000_0000_0000,   // A5
-        forall|k: int| 0 <= k < old(line_sets)@.len() && ends_border((#[trigger] old(line_sets)@[k]).1@) ==> bot(old(line_sets)@[k].1@).len() < 0x4000_0000_0000_0000,   // A5
-    ensures
-        final(line_sets)@.len() == old(line_sets)@.len(), final(column_padding)@.len() == old(column_padding)@.len(),
-        // a column that ends in a border loses exactly that line, and its filler line is the border's bars above (C05); other columns are untouched
+fn collapse_bottom_slice<T: Clone>(line_sets: &mut Vec<(usize, Vec<RenderLine<T>>)>, next_border: &mut BorderHoriz<T>, column_padding: &mut Vec<Option<String>>) //@w
+    requires //@w
+        old(column_padding)@.len() == old(line_sets)@.len(),     // `vec![None; line_sets.len()]` just before //@w
+        sep_pos(widths(old(line_sets)@), old(line_sets)@.len() - 1) < 0x4000_0000_0000_0000,   // A5 //@w
+        forall|k: int| 0 <= k < old(line_sets)@.len() && ends_border((#[trigger] old(line_sets)@[k]).1@) ==> bot(old(line_sets)@[k].1@).len() < 0x4000_0000_0000_0000,   // A5 //@w
+    ensures //@w
+        final(line_sets)@.len() == old(line_sets)@.len(), final(column_padding)@.len() == old(column_padding)@.len(), //@w
+        // a column that ends in a border loses exactly that line, and its filler line is the border's bars above (C05); other columns are untouched //@w
         forall|k: int| 0 <= k < old(line_sets)@.len() ==> (#[trigger] final(line_sets)@[k]).0 == old(line_sets)@[k].0 //@w @C05 #collapse_bottom_keeps_widths
             && final(line_sets)@[k].1@ == (if ends_border(old(line_sets)@[k].1@) { old(line_sets)@[k].1@.drop_last() } else { old(line_sets)@[k].1@ }), //@w @C03 @C05 #collapse_bottom_removes_only_the_border
         forall|k: int| 0 <= k < old(line_sets)@.len() ==> (if ends_border(old(line_sets)@[k].1@) { //@w @C05 #filler_is_bars_of_collapsed_border
                 (#[trigger] final(column_padding)@[k]) matches Some(s) && is_bars(s@, bot(old(line_sets)@[k].1@)) } else { final(column_padding)@[k] == old(column_padding)@[k] }), //@w @C05 #filler_is_bars_of_collapsed_border
-        // the rule below gets a bar above exactly where a collapsed border has a junction, at the column's own offset (C05)
+        // the rule below gets a bar above exactly where a collapsed border has a junction, at the column's own offset (C05) //@w
         forall|i: int| 0 <= i < final(next_border).segments@.len() ==> //@w @C05 #collapsed_junctions_at_column_offset
             up(#[trigger] final(next_border).segments@[i]) == (up(at(old(next_border).segments@, i)) || (merged_up(old(line_sets)@, old(line_sets)@.len() as int, i) && !vert(at(old(next_border).segments@, i)))), //@w @C05 #collapsed_junctions_at_column_offset
         forall|i: int| 0 <= i < final(next_border).segments@.len() ==> down(#[trigger] final(next_border).segments@[i]) == down(at(old(next_border).segments@, i)) && vert(final(next_border).segments@[i]) == vert(at(old(next_border).segments@, i)), //@w @C05 #collapse_bottom_keeps_rest
-        final(next_border).segments@.len() >= old(next_border).segments@.len(),
-{ //@w]
+        final(next_border).segments@.len() >= old(next_border).segments@.len(), //@w
+{ //@w
             /* Collapse any bottom border */
             let mut pos: usize = 0;
             let ghost ls0 = line_sets@; //@w
             let ghost n = line_sets@.len(); //@w
             assert forall|i: int| !(#[trigger] merged_up(ls0, 0, i)) by {} //@w
             for col_no in 0..line_sets.len()
-                invariant //@w[
-                    ls0 == old(line_sets)@, n == ls0.len(), line_sets@.len() == n, column_padding@.len() == n,
-                    sep_pos(widths(ls0), n - 1) < 0x4000_0000_0000_0000,
-                    forall|k: int| 0 <= k < n && ends_border((#[trigger] ls0[k]).1@) ==> bot(ls0[k].1@).len() < 0x4000_0000_0000_0000,
-                    pos == col_start(ls0, col_no as int),
-                    forall|k: int| col_no <= k < n ==> #[trigger] line_sets@[k] == ls0[k],
-                    forall|k: int| col_no <= k < n ==> #[trigger] column_padding@[k] == old(column_padding)@[k],
-                    forall|k: int| 0 <= k < col_no ==> (#[trigger] line_sets@[k]).0 == ls0[k].0
-                        && line_sets@[k].1@ == (if ends_border(ls0[k].1@) { ls0[k].1@.drop_last() } else { ls0[k].1@ }),
-                    forall|k: int| 0 <= k < col_no ==> (if ends_border(ls0[k].1@) {
-                            (#[trigger] column_padding@[k]) matches Some(s) && is_bars(s@, bot(ls0[k].1@)) } else { column_padding@[k] == old(column_padding)@[k] }),
-                    next_border.segments@.len() >= old(next_border).segments@.len(),
-                    covered(ls0, col_no as int, next_border.segments@.len() as int),
-                    forall|i: int| 0 <= i < next_border.segments@.len() ==>
-                        up(#[trigger] next_border.segments@[i]) == (up(at(old(next_border).segments@, i)) || (merged_up(ls0, col_no as int, i) && !vert(at(old(next_border).segments@, i)))),
-                    forall|i: int| 0 <= i < next_border.segments@.len() ==> down(#[trigger] next_border.segments@[i]) == down(at(old(next_border).segments@, i)) && vert(next_border.segments@[i]) == vert(at(old(next_border).segments@, i)),
-                //@w]
+                invariant //@w
+                    ls0 == old(line_sets)@, n == ls0.len(), line_sets@.len() == n, column_padding@.len() == n, //@w
+                    sep_pos(widths(ls0), n - 1) < 0x4000_0000_0000_0000, //@w
+                    forall|k: int| 0 <= k < n && ends_border((#[trigger] ls0[k]).1@) ==> bot(ls0[k].1@).len() < 0x4000_0000_0000_0000, //@w
+                    pos == col_start(ls0, col_no as int), //@w
+                    forall|k: int| col_no <= k < n ==> #[trigger] line_sets@[k] == ls0[k], //@w
+                    forall|k: int| col_no <= k < n ==> #[trigger] column_padding@[k] == old(column_padding)@[k], //@w
+                    forall|k: int| 0 <= k < col_no ==> (#[trigger] line_sets@[k]).0 == ls0[k].0 //@w
+                        && line_sets@[k].1@ == (if ends_border(ls0[k].1@) { ls0[k].1@.drop_last() } else { ls0[k].1@ }), //@w
+                    forall|k: int| 0 <= k < col_no ==> (if ends_border(ls0[k].1@) { //@w
+                            (#[trigger] column_padding@[k]) matches Some(s) && is_bars(s@, bot(ls0[k].1@)) } else { column_padding@[k] == old(column_padding)@[k] }), //@w
+                    next_border.segments@.len() >= old(next_border).segments@.len(), //@w
+                    covered(ls0, col_no as int, next_border.segments@.len() as int), //@w
+                    forall|i: int| 0 <= i < next_border.segments@.len() ==> //@w
+                        up(#[trigger] next_border.segments@[i]) == (up(at(old(next_border).segments@, i)) || (merged_up(ls0, col_no as int, i) && !vert(at(old(next_border).segments@, i)))), //@w
+                    forall|i: int| 0 <= i < next_border.segments@.len() ==> down(#[trigger] next_border.segments@[i]) == down(at(old(next_border).segments@, i)) && vert(next_border.segments@[i]) == vert(at(old(next_border).segments@, i)), //@w
             {
                 let w = line_sets[col_no].0; //@w
                 let ghost nb0 = next_border.segments@; //@w
@@ -216,18 +215,136 @@ fn collapse_bottom_slice<T: Clone>(line_sets: &mut Vec<(usize, Vec<RenderLine<T>
                     next_border.merge_from_above(line, pos);
                     column_padding[col_no] = Some(line.to_vertical_lines_above());
                     sublines.pop();
-                    proof { //@w[
-                        let k = col_no as int;
-                        assert forall|i: int| (#[trigger] merged_up(ls0, k + 1, i)) implies i < next_border.segments@.len() by {
-                            if !merged_up(ls0, k, i) { assert(joined(b[i - pos])); assert((i - pos) + pos < next_border.segments@.len()); }
+                    proof { //@w
+                        let k = col_no as int; //@w
+                        assert forall|i: int| (#[trigger] merged_up(ls0, k + 1, i)) implies i < next_border.segments@.len() by { //@w
+                            if !merged_up(ls0, k, i) { assert(joined(b[i - pos])); assert((i - pos) + pos < next_border.segments@.len()); } //@w
+                        } //@w
+                        assert forall|i: int| 0 <= i < next_border.segments@.len() implies //@w
+                            up(#[trigger] next_border.segments@[i]) == (up(at(old(next_border).segments@, i)) || (merged_up(ls0, k + 1, i) && !vert(at(old(next_border).segments@, i)))) by { //@w
+                            let o = at(old(next_border).segments@, i); //@w
+                            if i < nb0.len() { assert(up(nb0[i]) == (up(o) || (merged_up(ls0, k, i) && !vert(o)))); assert(vert(nb0[i]) == vert(o)); } //@w
+                            else { assert(!merged_up(ls0, k, i)); assert(o is Straight); } //@w
+                        } //@w
+                    } //@w
+                }
+                pos += w + 1;
+            }
+} //@w
+//@end
+
+spec fn begins_border<T>(ls: Seq<RenderLine<T>>) -> bool { ls.len() > 0 && ls[0] is Line }
+spec fn top<T>(ls: Seq<RenderLine<T>>) -> Seq<BorderSegHoriz> { ls[0]->Line_0.segments@ }
+// some column k < n starts with a (nested table's) top border that has a junction at position i of the row
+spec fn merged_down<T>(lsets: Seq<(usize, Vec<RenderLine<T>>)>, n: int, i: int) -> bool {
+    exists|k: int| 0 <= k < n && begins_border((#[trigger] lsets[k]).1@) && col_start(lsets, k) <= i < col_start(lsets, k) + top(lsets[k].1@).len() && joined(top(lsets[k].1@)[i - col_start(lsets, k)])
+}
+spec fn covered_d<T>(ls: Seq<(usize, Vec<RenderLine<T>>)>, k: int, len: int) -> bool { forall|i: int| (#[trigger] merged_down(ls, k, i)) ==> i < len }
+proof fn lemma_merged_down_step<T>(ls: Seq<(usize, Vec<RenderLine<T>>)>, k: int)
+    requires 0 <= k < ls.len(),
+    ensures forall|i: int| (#[trigger] merged_down(ls, k + 1, i)) == (merged_down(ls, k, i)
+        || (begins_border(ls[k].1@) && col_start(ls, k) <= i < col_start(ls, k) + top(ls[k].1@).len() && joined(top(ls[k].1@)[i - col_start(ls, k)]))),
+{
+    assert forall|i: int| (#[trigger] merged_down(ls, k + 1, i)) == (merged_down(ls, k, i)
+        || (begins_border(ls[k].1@) && col_start(ls, k) <= i < col_start(ls, k) + top(ls[k].1@).len() && joined(top(ls[k].1@)[i - col_start(ls, k)]))) by {
+        if merged_down(ls, k + 1, i) {
+            let j = choose|j: int| 0 <= j < k + 1 && begins_border((#[trigger] ls[j]).1@) && col_start(ls, j) <= i < col_start(ls, j) + top(ls[j].1@).len() && joined(top(ls[j].1@)[i - col_start(ls, j)]);
+            if j < k { assert(merged_down(ls, k, i)); }
+        }
+        if merged_down(ls, k, i) {
+            let j = choose|j: int| 0 <= j < k && begins_border((#[trigger] ls[j]).1@) && col_start(ls, j) <= i < col_start(ls, j) + top(ls[j].1@).len() && joined(top(ls[j].1@)[i - col_start(ls, j)]);
+            assert(0 <= j < k + 1 && begins_border(ls[j].1@));
+        }
+        if begins_border(ls[k].1@) && col_start(ls, k) <= i < col_start(ls, k) + top(ls[k].1@).len() && joined(top(ls[k].1@)[i - col_start(ls, k)]) {
+            assert(0 <= k < k + 1 && begins_border(ls[k].1@));
+        }
+    }
+}
+
+//@slice src/render/text_renderer.rs :: impl SubRenderer :: fn append_columns_with_borders :: /\/\* Collapse any top border \*\// .. /\/\* Collapse any bottom border \*\//
+//@name collapse_top_slice
+//@auto C01 C05
+//@sub /let mut pos = 0;/ ==> let mut pos: usize = 0;
+//@sub /for &mut \(w, ref mut sublines\) in &mut line_sets/ ==> for col_no in 0..line_sets.len()
+//@sub /if let &mut RenderLine::Line\(ref mut prev_border\) =\s*self\.lines\.back_mut\(\)\.expect\("No previous line"\)/ ==> if let RenderLine::Line(prev_border) = &mut *prev_line
+fn collapse_top_slice<T: Clone>(line_sets: &mut Vec<(usize, Vec<RenderLine<T>>)>, prev_line: &mut RenderLine<T>) //@w[
+    requires
+        // boundary (A6, call history): the line before a table row is the rule drawn by render_table_tree or by the previous row,
+        // and border lines only exist when borders are drawn
+        *old(prev_line) is Line,
+        sep_pos(widths(old(line_sets)@), old(line_sets)@.len() - 1) < 0x4000_0000_0000_0000,   // A5
+        forall|k: int| 0 <= k < old(line_sets)@.len() && begins_border((#[trigger] old(line_sets)@[k]).1@) ==> top(old(line_sets)@[k].1@).len() < 0x4000_0000_0000_0000,   // A5
+    ensures
+        final(line_sets)@.len() == old(line_sets)@.len(), *final(prev_line) is Line,
+        // a column that starts with a border loses exactly that line; other columns are untouched
+        forall|k: int| 0 <= k < old(line_sets)@.len() ==> (#[trigger] final(line_sets)@[k]).0 == old(line_sets)@[k].0 //@w @C05 #collapse_top_keeps_widths
+            && final(line_sets)@[k].1@ == (if begins_border(old(line_sets)@[k].1@) { old(line_sets)@[k].1@.subrange(1, old(line_sets)@[k].1@.len() as int) } else { old(line_sets)@[k].1@ }), //@w @C03 @C05 #collapse_top_removes_only_the_border
+        // the rule above gets a bar below exactly where a collapsed border has a junction, at the column's own offset (C05)
+        forall|i: int| 0 <= i < final(prev_line)->Line_0.segments@.len() ==> //@w @C05 #collapsed_top_junctions_at_column_offset
+            down(#[trigger] final(prev_line)->Line_0.segments@[i]) == (down(at(old(prev_line)->Line_0.segments@, i)) || (merged_down(old(line_sets)@, old(line_sets)@.len() as int, i) && !vert(at(old(prev_line)->Line_0.segments@, i)))), //@w @C05 #collapsed_top_junctions_at_column_offset
+        forall|i: int| 0 <= i < final(prev_line)->Line_0.segments@.len() ==> up(#[trigger] final(prev_line)->Line_0.segments@[i]) == up(at(old(prev_line)->Line_0.segments@, i)) && vert(final(prev_line)->Line_0.segments@[i]) == vert(at(old(prev_line)->Line_0.segments@, i)), //@w @C05 #collapse_top_keeps_rest
+        final(prev_line)->Line_0.segments@.len() >= old(prev_line)->Line_0.segments@.len(),
+{ //@w]
+            /* Collapse any top border */
+            let mut pos: usize = 0;
+            let ghost ls0 = line_sets@; //@w
+            let ghost n = line_sets@.len(); //@w
+            let ghost pb0 = prev_line->Line_0.segments@; //@w
+            assert forall|i: int| !(#[trigger] merged_down(ls0, 0, i)) by {} //@w
+            for col_no in 0..line_sets.len()
+                invariant //@w[
+                    ls0 == old(line_sets)@, n == ls0.len(), line_sets@.len() == n, *prev_line is Line, pb0 == old(prev_line)->Line_0.segments@,
+                    sep_pos(widths(ls0), n - 1) < 0x4000_0000_0000_0000,
+                    forall|k: int| 0 <= k < n && begins_border((#[trigger] ls0[k]).1@) ==> top(ls0[k].1@).len() < 0x4000_0000_0000_0000,
+                    pos == col_start(ls0, col_no as int),
+                    forall|k: int| col_no <= k < n ==> #[trigger] line_sets@[k] == ls0[k],
+                    forall|k: int| 0 <= k < col_no ==> (#[trigger] line_sets@[k]).0 == ls0[k].0
+                        && line_sets@[k].1@ == (if begins_border(ls0[k].1@) { ls0[k].1@.subrange(1, ls0[k].1@.len() as int) } else { ls0[k].1@ }),
+                    prev_line->Line_0.segments@.len() >= pb0.len(),
+                    covered_d(ls0, col_no as int, prev_line->Line_0.segments@.len() as int),
+                    forall|i: int| 0 <= i < prev_line->Line_0.segments@.len() ==>
+                        down(#[trigger] prev_line->Line_0.segments@[i]) == (down(at(pb0, i)) || (merged_down(ls0, col_no as int, i) && !vert(at(pb0, i)))),
+                    forall|i: int| 0 <= i < prev_line->Line_0.segments@.len() ==> up(#[trigger] prev_line->Line_0.segments@[i]) == up(at(pb0, i)) && vert(prev_line->Line_0.segments@[i]) == vert(at(pb0, i)),
+                //@w]
+            {
+                let w = line_sets[col_no].0; //@w
+                let ghost nb0 = prev_line->Line_0.segments@; //@w
+                proof { lemma_sep_mono(widths(ls0), col_no as int, n - 1); assert(widths(ls0)[col_no as int] == w); } //@w
+                let sublines = &mut line_sets[col_no].1; //@w
+                assert(sublines@ == ls0[col_no as int].1@); //@w
+                proof { lemma_merged_down_step(ls0, col_no as int); } //@w
+                let starts_border = matches!(sublines.first(), Some(RenderLine::Line(_)));
+                if starts_border {
+                    html_trace!("Starts border");
+                    if let RenderLine::Line(prev_border) = &mut *prev_line
+                    {
+                        if let RenderLine::Line(line) = sublines.remove(0) {
+                            html_trace!(
+                                "prev border:\n{}\n, pos={}, line:\n{}",
+                                prev_border.to_string(),
+                                pos,
+                                line.to_string()
+                            );
+                            let ghost b = line.segments@; //@w
+                            assert(begins_border(ls0[col_no as int].1@) && b == top(ls0[col_no as int].1@)); //@w
+                            prev_border.merge_from_below(&line, pos);
+                            proof { //@w[
+                                let k = col_no as int;
+                                let pbn = prev_border.segments@;
+                                assert forall|i: int| (#[trigger] merged_down(ls0, k + 1, i)) implies i < pbn.len() by {
+                                    if !merged_down(ls0, k, i) { assert(joined(b[i - pos])); assert((i - pos) + pos < pbn.len()); }
+                                }
+                                assert forall|i: int| 0 <= i < pbn.len() implies
+                                    down(#[trigger] pbn[i]) == (down(at(pb0, i)) || (merged_down(ls0, k + 1, i) && !vert(at(pb0, i)))) by {
+                                    let o = at(pb0, i);
+                                    if i < nb0.len() { assert(down(nb0[i]) == (down(o) || (merged_down(ls0, k, i) && !vert(o)))); assert(vert(nb0[i]) == vert(o)); }
+                                    else { assert(!merged_down(ls0, k, i)); assert(o is Straight); }
+                                }
+                            } //@w]
                         }
-                        assert forall|i: int| 0 <= i < next_border.segments@.len() implies
-                            up(#[trigger] next_border.segments@[i]) == (up(at(old(next_border).segments@, i)) || (merged_up(ls0, k + 1, i) && !vert(at(old(next_border).segments@, i)))) by {
-                            let o = at(old(next_border).segments@, i);
-                            if i < nb0.len() { assert(up(nb0[i]) == (up(o) || (merged_up(ls0, k, i) && !vert(o)))); assert(vert(nb0[i]) == vert(o)); }
-                            else { assert(!merged_up(ls0, k, i)); assert(o is Straight); }
-                        }
-                    } //@w]
+                    } else {
+                        unreachable!();
+                    }
                 }
                 pos += w + 1;
             }
